@@ -880,7 +880,7 @@ class MacroProgram(ElementProgram):
                 # (dynamic, from one or more dict values).
                 else:
                     value = ast.Constant(text)
-                    if msgid is missing and implicit_i18n:
+                    if msgid is missing and implicit_i18n and text:
                         msgid = text
 
             if name is not None:
